@@ -269,9 +269,14 @@ class C18(Check):
                 reg.add((ip, src[1]))
             if rates and f.random() < rates.get("handler_restart", 0) * 0.15:
                 which = f.choice(["RDAC", "P2P"])
-                ops.append({"kind": "handler_restart", "t": round(t, 6), "dst": which})
-                if which == "RDAC":
-                    step.clear()
+                if f.random() < 0.5:
+                    # the socket under the handler goes away and a new one is attached (connection_lost, connection_made on the SAME handler object):
+                    # nothing a peer sent changes by that, so neither does any peer's step or registration
+                    ops.append({"kind": "new_transport", "t": round(t, 6), "dst": which, "exc": f.random() < 0.5, "disconnect": f.random() < 0.5})
+                else:
+                    ops.append({"kind": "handler_restart", "t": round(t, 6), "dst": which})
+                    if which == "RDAC":
+                        step.clear()
             if knobs["app_sets_out"] and w.random() < 0.15:
                 ops.append({"kind": "app_set_out", "t": round(t, 6), "addr": src, "out": [src[0], w.choice([P2P_PORT, 40009])]})
                 if w.random() < 0.4:
@@ -447,6 +452,18 @@ class C18(Check):
                     p2p.connection_made(SimDatagramTransport("P2P", lambda o, d, a: out.append((o, d, a))))
                 res.fault("handler_restart")
                 log.add(op["t"], op["dst"], "handler_restart", None)
+                continue
+            if op["kind"] == "new_transport":
+                h = rdac if op["dst"] == "RDAC" else p2p
+                try:
+                    if op["dst"] == "P2P" and op.get("disconnect"):
+                        h.disconnect()
+                    h.connection_lost(OSError("network is down") if op.get("exc") else None)
+                except Exception:
+                    res.probe("lifecycle_call_raised")  # the property is silent about the lifecycle calls themselves
+                h.connection_made(SimDatagramTransport(op["dst"], lambda o, d, a: out.append((o, d, a))))
+                res.fault("new_transport")
+                log.add(op["t"], op["dst"], "new_transport", None)
                 continue
             if op["kind"] == "app_set_out":
                 a = tuple(op["addr"])
